@@ -95,8 +95,12 @@ def gen_string(rng, classes=None, maxlen=12, allow_empty=True, inner_ws=True):
     return "".join(out)
 
 
+# names a device, property or element may perfectly well have, which happen to be words the implementation uses for itself
+IMPLEMENTATION_WORD_NAMES = ["value", "children", "name", "device", "state", "message", "timestamp", "on"]
+
+
 def gen_name(rng):
-    return rng.choice(["A", "B", "CAMERA", "EXPOSE", "x1", "Telescope Simulator", "CCD_EXPOSURE_VALUE"]) \
+    return rng.choice(["A", "B", "CAMERA", "EXPOSE", "x1", "Telescope Simulator", "CCD_EXPOSURE_VALUE"] + IMPLEMENTATION_WORD_NAMES) \
         if rng.random() < 0.6 else gen_string(rng, maxlen=10, allow_empty=False)
 
 
